@@ -700,6 +700,8 @@ def _tree_key(src, out, tin, tout):
     edit, site = _edit_sig(src, out, h)
     if site in _SITE_FEATURE and edit == "sp>0":
         return f"tree:{_SITE_FEATURE[site]}", t
+    if site == "line-start" and "\x0c" in src[h[0] : h[1]] and "\x0c" not in out[h[2] : h[3]]:
+        return "tree:form-feed-in-leading-whitespace", t
     if site == "at-whitespace-errortoken":
         return "tree:whitespace-errortoken", t
     mode = _mode(src, t)
@@ -879,12 +881,16 @@ def _do_form(item):
             # need; the key is the one of the minimal failing layout (which is itself enumerated)
             clause = v["key"].split(":", 1)[0]
             cur, adopted = tuple(devs), None
-            for d in devs:
-                trial = tuple(x for x in cur if x != d)
-                _s2, (_f2, v2s) = ev_devs(trial)
-                same = [w for w in v2s if w["key"].split(":", 1)[0] == clause]
-                if same:
-                    cur, adopted = trial, same[0]
+            progress = True
+            while progress:  # to a 1-minimal layout
+                progress = False
+                for d in cur:
+                    trial = tuple(x for x in cur if x != d)
+                    _s2, (_f2, v2s) = ev_devs(trial)
+                    same = [w for w in v2s if w["key"].split(":", 1)[0] == clause]
+                    if same:
+                        cur, adopted, progress = trial, same[0], True
+                        break
             if adopted is not None:
                 stats["cases_reduced_to_smaller_layout"] = stats.get("cases_reduced_to_smaller_layout", 0) + 1
                 record(adopted, {"form": text, "family": fam, "devs": space.devs_to_json(cur), "reduced_from": space.devs_to_json(devs)}, space.render(lines, dict(cur)))
